@@ -822,6 +822,11 @@ impl<T: Float> Unpaired<T> {
                 / (sa2_na * sa2_na / (n_a + T::one())
                     + sb2_nb * sb2_nb / (n_b + T::one())) - T::one() - T::one();
 
+        if !mean_difference.is_finite() || !std_err_mean.is_finite() {
+            // NaN or infinite observations (or sums that overflow the float type)
+            return Err(CIError::InvalidInputData);
+        }
+
         let (lo, hi) = stats::interval_bounds(
             confidence,
             mean_difference.try_f64("mean_difference")?,
